@@ -34,6 +34,7 @@ Blame ==
   @@ "cb.pb"      :> {"C03", "C05"}
   @@ "cb.pe"      :> {"C03"}
   @@ "cb.pb.failed" :> {"C02", "C03", "C04", "C06"} @@ "cb.pb.failed.restarted" :> {"C02", "C03", "C04", "C06", "C07"}
+  @@ "cb.pb.failed.owning" :> {"C02", "C03", "C04", "C06", "C17"} @@ "cb.pb.failed.restarted.owning" :> {"C02", "C03", "C04", "C06", "C07", "C17"}
   @@ "hb.phase.failed.startErr.restarted" :> {"C06", "C03", "C07"}
   @@ "oe.res.failed.startErr.restarted" :> {"C06", "C02", "C03", "C07"} @@ "oe.res.failed.startErr.await.restarted" :> {"C06", "C02", "C03", "C04", "C07"}
   @@ "exit.loop.aftertimeout" :> {"C11", "C03"} @@ "exit.loop.held" :> {"C03", "C05", "C15"}
@@ -44,7 +45,7 @@ Blame ==
   @@ "cb.fe"      :> {"C03", "C13"}
   @@ "cb.pb.stream" :> {"C03", "C13"}
   @@ "cb.name"    :> {"C03"}
-  @@ "cb.inst"    :> {"C07"}
+  @@ "cb.inst"    :> {"C07"} @@ "cb.inst.owning" :> {"C07", "C17"}
   @@ "cb.inc"     :> {"C07"}
   @@ "dn.recreate" :> {"C07"}
   @@ "exit.loop"  :> {"C03"}
